@@ -330,6 +330,7 @@ func init() {
 			"plus long histories (growth to 33..130 elements, optional Reset, full drain) and seeded random 40-op histories (batched pushes with 10% nil, Insert/Remove with indices in [-L-1,L+1], FIFO switched on mid-history); " +
 			"each on a random kind x LIFO/FIFO x capacity {none,1,2,3,5} x negative/forward index options. After EVERY op the real stack's " +
 			"Len/IsEmpty/Index(all positions and 5 out-of-range probes)/Front/Back/Cap/Avail/IsFull and the op's return values are compared with a sequential list model. " +
+			"Half of the random histories run next to a bystander stack that is worked on in between (the observed stack must not change), and an eighth of their values are distinct pointers to equal data, compared by identity. " +
 			"non-trivial = history uses >= 3 different mutator kinds and reaches Len >= 2; distinct = hash of (configuration, literal op list).",
 		Assumptions: []string{
 			"Replace/Swap are only issued on existing positions (out-of-range and negative indices are C08's domain)",
